@@ -147,9 +147,63 @@ def run(shard):
     import warnings as _warnings
     import os as _os
 
+    import dis as _dis
+    _dis_lists = [getattr(_dis, n) for n in ("hasconst", "hasname", "hasjrel", "hasjabs", "haslocal", "hascompare", "hasfree", "cmp_op") if hasattr(_dis, n)]
+
+    def lib_globals():
+        """The library's own module globals: which names exist, which object each is bound to, how long each container is.
+        A pure API call leaves no trace there (no registers, work lists or registries at module level)."""
+        out = []
+        for mname in sorted(m for m in list(_sys.modules) if m == H.LIBNAME or m.startswith(H.LIBNAME + ".")):
+            mod = _sys.modules.get(mname)
+            d = getattr(mod, "__dict__", None)
+            if not d:
+                continue
+            for k_, v_ in d.items():
+                if k_.startswith("__") and k_.endswith("__"):
+                    continue
+                out.append((mname, k_, id(v_), len(v_) if type(v_) in (list, dict, set, bytearray) else -1, type(v_).__name__ == "module"))
+        return tuple(out)
+
+    def lib_globals_changed(a_, b_):
+        """Names of the library's module globals that an API call rebound, resized, removed or created.  Importing one of the
+        library's own submodules on first use is initialisation, not state: modules that were not loaded before the call
+        and the attribute that binds a freshly imported submodule are left out."""
+        if a_ == b_:
+            return []
+        da, db = dict(((x[0], x[1]), x[2:]) for x in a_), dict(((x[0], x[1]), x[2:]) for x in b_)
+        mods_before = set(x[0] for x in a_)
+        ch = []
+        for k_ in set(da) | set(db):
+            if k_[0] not in mods_before:
+                continue
+            if k_ not in da and db[k_][2]:
+                continue
+            if da.get(k_) != db.get(k_):
+                ch.append("%s.%s" % k_)
+        return sorted(ch)
+
     def global_state():
         return (_sys.getrecursionlimit(), getattr(_sys, "get_int_max_str_digits", lambda: None)(), len(_sys.path), len(_warnings.filters),
-                _os.getcwd(), _sys.getswitchinterval(), len(_os.environ), _sys.gettrace() is None)
+                _os.getcwd(), _sys.getswitchinterval(), len(_os.environ), _sys.gettrace() is None,
+                hash(frozenset(_dis.opmap.items())), hash(tuple(_dis.opname)), tuple(tuple(l_) for l_ in _dis_lists),
+                lib_globals())
+
+    def describe_global_change(g, g2):
+        names = ["recursion limit", "int_max_str_digits", "len(sys.path)", "warning filters", "cwd", "switch interval", "len(environ)",
+                 "no trace function", "dis.opmap", "dis.opname", "dis.has* lists", "module globals of the library"]
+        out = []
+        for n_, a_, b_ in zip(names, g, g2):
+            if a_ != b_:
+                if n_.startswith("module globals"):
+                    ch = lib_globals_changed(a_, b_)
+                    if ch:
+                        out.append("%s: %s (rebound, added, removed or resized)" % (n_, ", ".join(ch[:8])))
+                elif n_.startswith("dis."):
+                    out.append("%s changed" % n_)
+                else:
+                    out.append("%s: %r -> %r" % (n_, a_, b_))
+        return "; ".join(out)
 
     def with_global(pre, post, name):
         def pre2(a, k, depth):
@@ -161,8 +215,9 @@ def run(shard):
                 H.count("checks:C12.global_state")
                 g2 = global_state()
                 if g2 != g:
-                    viol(name, "interpreter-wide state changed by the call", "before %r after %r (recursion limit, int_max_str_digits, "
-                         "len(sys.path), warning filters, cwd, switch interval, len(environ), no trace function)" % (g, g2))
+                    desc = describe_global_change(g, g2)
+                    if desc:
+                        viol(name, "interpreter-wide state changed by the call", desc)
             post(a, k, res, exc, depth, inner)
         return pre2, post2
 
@@ -290,12 +345,15 @@ def run(shard):
     if shard.get("role") == "json_only":
         run_json_only(shard, CodeData, H, dc, json, canon, viol, state, same_data, clobber)
         return
+    stress_items = []
     for case, id_, code, text in corpus.iter_cases(shard):
         state["case"] = corpus.replay_case(case)
         if case["k"] == "w9":
             state["case"] = dict(case, id=id_)
         state["hist"] = []
         rng = H.rng_for(shard.get("seed", 0), "c12", id_)
+        if len(stress_items) < 24 and 40 <= sum(len(c_.co_code) for c_, _d in H.iter_code(code)) <= 2500:
+            stress_items.append((state["case"], code))
         x_first = call("D", CodeData.from_code, code)
         if x_first[1] is not None:
             H.count("decode_raised")
@@ -388,11 +446,52 @@ def run(shard):
         # the decoded value itself must still be what the first decode produced
         if not same_data(x, x_first[0]):
             viol("from_code", "value changed during history", "decoded CodeData differs at the end of the history")
+        if rng.random() < 0.25 and len(code.co_code) < 4000:
+            # a code object nobody compiled: unreachable code units after the end that hold an opcode this interpreter does not
+            # define.  Whatever from_code does with it (decode or raise), the process must be left as it was.
+            import gen_const
+            undefined = [o for o in range(256) if _dis.opname[o].startswith("<")]
+            o = rng.choice(undefined)
+            try:
+                junk = gen_const.rebuild(code, co_code=code.co_code + bytes(bytearray([o, 0])))
+            except Exception:
+                junk = None
+            if junk is not None:
+                H.count("foreign_opcode_decodes")
+                r_ = call("D~", CodeData.from_code, junk)
+                if r_[1] is None:
+                    call("E~", r_[0].to_code)
         if nested or case["k"] in ("w9", "w9src"):
             H.distinct(hashlib.md5((id_ + "|" + " ".join(state["hist"])).encode("utf-8", "replace")).digest())
         H.feature("history_len:%d" % (len(state["hist"]) // 8 * 8))
         if H._counters.get("cases", 0) <= 4:
             H.sample({"id": id_, "history": " ".join(state["hist"])})
+
+    if len(stress_items) >= 2:
+        # interleaved calls in the literal sense: the five API functions re-entrantly and from several threads at once
+        import stress
+        rng = H.rng_for(shard.get("seed", 0), "stress", shard.get("shard", 0))
+        if len(stress_items) > 8:
+            stress_items = rng.sample(stress_items, 8)
+
+        def api(code):
+            x = CodeData.from_code(code)
+            doc = x.to_json_data()
+            return (x, x.to_code(), x.normalize(), canon(doc), CodeData.from_json_data(doc))
+
+        def same(a, b):
+            if not same_data(a[0], b[0]):
+                return "from_code result differs"
+            if H.strict_diff(a[1], b[1], nan_ident=False):
+                return "to_code result differs: %s" % H.short(H.strict_diff(a[1], b[1], nan_ident=False)[:2], 200)
+            if not same_data(a[2], b[2]):
+                return "normalize result differs"
+            if a[3] != b[3]:
+                return "to_json_data result differs"
+            if not same_data(a[4], b[4]):
+                return "from_json_data result differs"
+            return None
+        stress.stress("C12", stress_items, api, same, rng, n_reentrant=8, label="from_code/to_code/normalize/to_json_data/from_json_data")
 
 
 def run_json_only(shard, CodeData, H, dc, json, canon, viol, state, same_data, clobber):
